@@ -444,6 +444,22 @@ def sweep_cases():
             yield c
 
 
+def big_cases(thorough=False):
+    """one flush of several hundred segments (a long table, a log of a few hundred lines): neighbouring segments whose styles write
+    the same SGR parameters and differ in what SGR does not carry (the hyperlink), or write different parameters for the same look"""
+    row = [dict(system=s, auto=None, nocolor=False, nocolor_env=False, force=True, tty=False, legacy=False, record=False) for s in ("truecolor", "256", "standard")]
+    styles = [dict(r="kw", attrs=dict(bold=True)), dict(r="kw", attrs=dict(bold=True), link=LINKS[0]), dict(r="kw", attrs=dict(bold=True), link=LINKS[1]),
+              dict(r="kw", link=LINKS[2]), dict(r="parse", d="bold"), dict(r="kw", color="red"), dict(r="kw", color="color(1)")]
+    for n, order in (((90, (0, 1, 2)), (150, (None, 3, None)), (400, (4, 1, 0, 2)), (300, (5, 6, 3, None))) if thorough else ((90, (0, 1, 2)),)):
+        segs = []
+        for i in range(n):
+            for j, si in enumerate(order):
+                segs.append(["%s%d" % ("abcd"[j], i % 10), si, False])
+            segs.append(["\n", None, False])
+        for mode in (("segs", "text") if thorough else ("segs",)):
+            yield dict(styles=styles, segs=segs, mode=mode, pieces=2, pbase=None, cbase=None, crop=False, decapi="all", consoles=row if thorough else row[:1])
+
+
 def describe(case, i):
     return dict(case, consoles=case["consoles"][:i + 1])
 
@@ -468,7 +484,7 @@ def upgrade(case):
 def run_cases(chk, n, only_decoder=False, sweep=False):
     recs, meta = [], []
     _MEANING.clear()
-    cases = list(sweep_cases()) if sweep else []
+    cases = (list(sweep_cases()) + list(big_cases(os.environ.get("VERIF_TIER") == "thorough"))) if sweep else []
     cases += [random_case(chk.rng, only_decoder) for _ in range(n)]
     for case in cases:
         for i, rec in enumerate(run_case(case)):
